@@ -192,8 +192,39 @@ func isSortByID(c *ssa.Call) bool {
 	if f == nil || f.Name() != "Sort" || f.Signature.Recv() == nil || !isNamed(f.Signature.Recv().Type(), core.RootModule, "MultiSorter") {
 		return false
 	}
+	if ld, ok := c.Call.Args[0].(*ssa.UnOp); ok {
+		// a package-level sorter assigned once, in the package initialiser, from OrderedBy(ID)
+		g, ok := ld.X.(*ssa.Global)
+		if !ok || g.Pkg == nil {
+			return false
+		}
+		var inits []*ssa.Call
+		other := false
+		for _, m := range g.Pkg.Members {
+			fn, ok := m.(*ssa.Function)
+			if !ok {
+				continue
+			}
+			sx.WithAnon(fn, func(f *ssa.Function) {
+				sx.AllInstrs(f, func(_ sx.Node, in ssa.Instruction) {
+					if st, ok := in.(*ssa.Store); ok && st.Addr == ssa.Value(g) {
+						if ob, isCall := st.Val.(*ssa.Call); isCall && f.Name() == "init" && f.Parent() == nil {
+							inits = append(inits, ob)
+						} else {
+							other = true
+						}
+					}
+				})
+			})
+		}
+		return !other && len(inits) == 1 && isOrderedByID(inits[0])
+	}
 	ob, ok := c.Call.Args[0].(*ssa.Call)
-	if !ok || ob.Call.StaticCallee() == nil || ob.Call.StaticCallee().Name() != "OrderedBy" {
+	return ok && isOrderedByID(ob)
+}
+
+func isOrderedByID(ob *ssa.Call) bool {
+	if ob.Call.StaticCallee() == nil || ob.Call.StaticCallee().Name() != "OrderedBy" {
 		return false
 	}
 	sl, ok := ob.Call.Args[0].(*ssa.Slice)
